@@ -139,6 +139,10 @@ def run(tier):
         cases = [c for c in cases if c["lvl"] <= 1] + deep[common.seed() % step::step]
     res = common.pmap(observe, cases, chunksize=8)
     viol = [v for r in res for v in r]
+    # large structured operators: factored determinants from BigDet.tla
+    from .. import bigdetfam
+    bviol, bcov = bigdetfam.phase(PROP, tier, common.seed())
+    viol += bviol
     nontriv = {json.dumps(c["t"], sort_keys=True) for c in cases if opsfam.nontrivial(c)}
     cov = {"states": stats["distinct"], "transitions": stats["states"], "traces_validated_against_impl": len(cases),
            "evaluations": len(cases), "distinct_nontrivial": len(nontriv), "rule": RULE,
@@ -146,11 +150,26 @@ def run(tier):
            "nonsingular_trees_emitted": total,
            "negative_determinants": sum(1 for c in cases if linalgfam.qval(c["det"]).real < 0),
            "determinants_below_one": sum(1 for c in cases if abs(linalgfam.qval(c["det"])) < 1),
-           "checker_cmd": "tlc MC_Ops.tla with Acts including linalg (Mat.tla: DetN / Det)"}
+           "checker_cmd": "tlc MC_Ops.tla with Acts including linalg (Mat.tla: DetN / Det); tlc MC_BigDet.tla "
+                          "(SpecSmall: SmallSound; SpecBig: factored determinants of the large catalog)"}
+    cov.update(bcov)
+    cov["states"] += bcov["bigdet_small_states"] + bcov["bigdet_cases"]
+    cov["traces_validated_against_impl"] += bcov["bigdet_cases"]
     return common.finish(PROP, tier, t0, cov, viol, opsfam.ASSUMPTIONS + [
         "sign*exp(logabs) is compared with TLC's exact determinant to 1e-6*cond (double) / 5e-3*cond (single), 50x "
         "looser for the Lanczos/Arnoldi log paths"])
 
 
 def replay(path):
+    import json
+    v = json.load(open(path))
+    r = v.get("replay") or {}
+    if "bigdet" in r:
+        from .. import bigdetfam, build  # noqa: F401
+        out = bigdetfam.observe(PROP, r["bigdet"], r["t"], r["bag"])
+        for x in out:
+            print(f"VIOLATION property={PROP} replay={path}\n  clause={x.clause} case={x.case} :: {x.detail}")
+        new, seen, known = common.triage(PROP, out)
+        print(f"replayed 1 case: {len(out)} violation(s), {len(new)} not covered by known findings")
+        return 1 if new else 0
     return opsfam.replay_generic(PROP, observe, path)
